@@ -1,7 +1,7 @@
 /* Executor for C14 (blocking TCP client): the real readResponse() of net_tcp.c and
  * KSI_IO_readSocket() of io.c on a scripted socket (libc calls of these two translation units
  * are redirected by macros).
- *  btcp <reqhex> <sends|-> <streamhex|-> <recvs|-> <y|n>   =>  <status> <wirehex|-> <responsehex|->
+ *  btcp <reqhex> <sends|-> <streamhex|-> <recvs|-> <y|n>   =>  <status> <wirehex|-> <responsehex|-> [to:<receive timeout set on the socket>:<send timeout>]
  *     sends '.'-separated: <n> | x ; recvs: <n> | z | w | x  (exhausted script: send takes everything, recv delivers everything) */
 #include <sys/types.h>
 #include <sys/socket.h>
@@ -39,7 +39,16 @@ static int sim_getaddrinfo(const char *n, const char *s, const struct addrinfo *
 }
 static void sim_freeaddrinfo(struct addrinfo *r) { (void)r; }
 static int sim_socket(int a, int b, int c) { (void)a; (void)b; (void)c; return 1000; }
-static int sim_setsockopt(int fd, int l, int o, const void *v, socklen_t n) { (void)fd; (void)l; (void)o; (void)v; (void)n; return 0; }
+static int g_rcvto, g_sndto;       /* receive / send timeout set on the socket (seconds; -1 = never set) */
+static int sim_setsockopt(int fd, int l, int o, const void *v, socklen_t n) {
+	(void)fd;
+	if (l == SOL_SOCKET && n >= sizeof(struct timeval) && v != NULL) {
+		const struct timeval *tv = (const struct timeval *)v;
+		if (o == SO_RCVTIMEO) g_rcvto = (int)tv->tv_sec;
+		if (o == SO_SNDTIMEO) g_sndto = (int)tv->tv_sec;
+	}
+	return 0;
+}
 static int sim_close(int fd) { (void)fd; return 0; }
 static int sim_connect(int fd, const struct sockaddr *a, socklen_t l) { (void)fd; (void)a; (void)l; if (!g_connect_ok) { errno = ECONNREFUSED; return -1; } return 0; }
 static ssize_t sim_recv(int fd, void *buf, size_t len, int fl) {
@@ -96,11 +105,13 @@ static void do_line(char *work, const char *orig) {
 		g_connect_ok = (w[5][0] == 'y');
 		if (KSI_TcpClient_new(ctx, &cl) != KSI_OK) { printf("NEW-FAILED"); return; }
 		if (KSI_RequestHandle_new(ctx, req, rl, &h) != KSI_OK) { printf("HANDLE-FAILED"); return; }
+		g_rcvto = -1; g_sndto = -1;
 		res = sendRequest(cl, h, "sim.host", 1234);
 		if (res == KSI_OK) res = h->readResponse(h);
 		printf("%d ", res);
 		puthex(stdout, g_wire, g_wlen); putchar(' ');
 		if (res == KSI_OK && KSI_RequestHandle_getResponse(h, &resp, &resp_len) == KSI_OK) puthex(stdout, resp, resp_len); else putchar('-');
+		if (g_connect_ok) printf(" to:%d:%d", g_rcvto, g_sndto);      /* a blocking socket without a receive timeout never comes back from a silent peer */
 		KSI_RequestHandle_free(h); KSI_NetworkClient_free(cl);
 		free(req); free(g_stream); free(g_wire);
 	} else if (n == 3 && !strcmp(w[0], "baddr")) {
